@@ -15,7 +15,7 @@ RULE = ("Hypothesis rule-based state machine over one live SimulateOde and an ab
         "generated model (1-3 states, 0-3 parameters, 0-2 events, 0-1 ODE terms, 0-1 derived parameters). Rules: add_event(Event), "
         "add_event(Transition with equation), add_event(Event whose member transition carries the rate), add_transition, "
         "add_birth_death (birth and death), add_ode / ode_list=[..] / ode_list=Transition, param_list = old+[new] / [new] / 'new', "
-        "derived_param_list=[(name, eqn)], parameters = full list | tuple | array | dict by name | dict by symbol | pair list | "
+        "derived_param_list=[(name, eqn)], a sibling model (same names and rates, other derived-parameter / ODE definitions) built and evaluated in the same process, parameters = full list | tuple | array | dict by name | dict by symbol | pair list | "
         "partial dict, and evaluate(subset of the 11 compiled evaluators at a generated (x,t)). Evaluation is enabled when every "
         "parameter referenced by the definition has a value. Oracle after every evaluate step and at the end of the history (all "
         "11): each evaluated function equals (rtol 1e-9) the value from a freshly constructed model rendered from the mirror with "
@@ -187,6 +187,28 @@ class World:
             self.model.ode_list = tr
         self.m["odes"].append(o)
 
+    def _op_sibling(self, op):
+        """Another model is built and evaluated in the same process: same names, rates and magnitudes as ours, other
+        definitions of the derived parameters and ODE terms."""
+        sib = copy.deepcopy(self.m)
+        for d_ in sib["derived"]:
+            d_["expr"] = ir.mul(ir.C(2), d_["expr"])
+        for o_ in sib["odes"]:
+            o_["expr"] = ir.mul(ir.C(3), o_["expr"])
+        n_s = len(ir.state_names(sib))
+        try:
+            sm, _o = render.build(sib)
+            if sib["params"]:
+                sm.parameters = {p: self.values[p] for p in sib["params"] if p in self.values}
+            x = [1.25 + 0.5 * i for i in range(n_s)]
+            for nm in evalref.EVALUATORS:
+                try:
+                    getattr(sm, nm)(x, 0.3)
+                except Exception:
+                    pass
+        except Exception:
+            self.rec.label("sibling-could-not-be-built")
+
     def _op_eval(self, op):
         self._evaluate(op["names"], op["x"], op["t"], op)
 
@@ -226,6 +248,15 @@ class World:
             key = "C08/%s" % nm
             # the mirror evaluator and the fresh model must agree, otherwise the oracle itself is in doubt (C01/C03 territory)
             if nm in ref and not _close(want, ref[nm]):
+                # who is right?  Build the same definition in a clean interpreter: if it agrees with the mirror there, the
+                # construction is fine and something left behind in THIS process (by the history, or by another model) has
+                # corrupted both the live and the fresh model - which is what this property is about
+                from pbt import cleaneval
+                clean = cleaneval.in_clean_process(copy.deepcopy(m), dict(self.values), [nm], x, t)
+                if nm in clean and np.size(clean[nm]) == np.size(ref[nm]) and _close(np.asarray(clean[nm], float).reshape(np.shape(ref[nm])), ref[nm]):
+                    raise PropertyViolation(key + "/process-state", "%s(x,t) of a freshly constructed model differs from the model's definition "
+                                            "in this process (%s vs %s) but not in a clean interpreter: state left behind by earlier models or "
+                                            "modifications leaks into new compilations" % (nm, np.ravel(want)[:4], np.ravel(ref[nm])[:4]), None)
                 raise Inconclusive("fresh model and mirror evaluator disagree")
             try:
                 got = np.asarray(getattr(self.model, nm)(x, t), float)
@@ -399,6 +430,16 @@ def machine(tier, rec, ctl):
                 return
             if self.do(_draw_modification(data, self.world)) and self.world.can_eval():
                 self.do(_draw_eval(data, self.world, prefer_compiled=True))
+
+        @precondition(lambda self: self.dead or (self.world is not None and self.world.can_eval()
+                                                 and (self.world.m["derived"] or self.world.m["odes"])
+                                                 and getattr(self, "_siblings", 0) < 1))
+        @rule()
+        def sibling_model(self):
+            if self.dead:
+                return
+            self._siblings = getattr(self, "_siblings", 0) + 1
+            self.do({"op": "sibling"})
 
         # ---- evaluation
         @precondition(lambda self: self.dead or (self.world is not None and self.world.can_eval()))
